@@ -4,8 +4,10 @@
    context); connection.py _ssl_wrap_socket_and_match_hostname (verify_mode always follows cert_reqs, when urllib3 takes
    the host-name check over, the fingerprint and host-name checks after the handshake, is_verified), HTTPSConnection.connect;
    connectionpool.py _validate_conn (InsecureRequestWarning).
+   and which trust anchors the context ends up with (ca_certs / ca_cert_dir / ca_cert_data, else - and only in a context
+   urllib3 made itself - the system store).
    Below the model: the TLS library.  Its chain validation and its host-name check, and urllib3's own match_hostname
-   (C08), are inputs: does the chain validate, does the certificate name the server name, does it name the asserted name. *)
+   (C08), are inputs: who issued the certificate, does it name the server name, does it name the asserted name. *)
 From Coq Require Import List Bool.
 Import ListNotations.
 
@@ -15,11 +17,14 @@ Inductive assert_hostname := AHUnset | AHFalse | AHName.
 Inductive fingerprint := FPUnset | FPRight | FPWrong | FPBadLength.
 Inductive context := CtxNone | CtxChecking | CtxNotChecking.     (* ssl_context: none given / check_hostname on / off *)
 
+Inductive trust := TFile | TDir | TData | TNothing.              (* ca_certs / ca_cert_dir / ca_cert_data / none of them *)
+Inductive issuer := IConfigured | ISystem | IUnknown.            (* the CA the caller configured / one of the system store / neither *)
+
 Record settings := mkSettings {
-  s_cert_reqs : cert_reqs; s_assert_hostname : assert_hostname; s_fingerprint : fingerprint; s_context : context
+  s_cert_reqs : cert_reqs; s_assert_hostname : assert_hostname; s_fingerprint : fingerprint; s_context : context; s_trust : trust
 }.
 Record peer := mkPeer {
-  p_chain_ok : bool;        (* the chain validates against the configured CAs *)
+  p_issuer : issuer;        (* who signed the certificate *)
   p_sni_name_ok : bool;     (* the TLS library finds the server name in the certificate *)
   p_assert_name_ok : bool   (* urllib3's match_hostname finds assert_hostname (or else the server name) in it *)
 }.
@@ -29,6 +34,20 @@ Definition resolve (c : cert_reqs) : verify_mode :=
 
 Definition is_none (v : verify_mode) : bool := match v with VNone => true | _ => false end.
 Definition is_required (v : verify_mode) : bool := match v with VRequired => true | _ => false end.
+
+(* the anchors of the context after _ssl_wrap_socket_and_match_hostname: the configured CA whenever one is configured
+   (load_verify_locations); the system store only when none is and the context is urllib3's own (load_default_certs);
+   a caller's context is taken as it comes (here: empty) *)
+Definition no_ca (t : trust) : bool := match t with TNothing => true | _ => false end.
+Definition own_context (c : context) : bool := match c with CtxNone => true | _ => false end.
+Definition anchored (s : settings) (i : issuer) : bool :=
+  match i with
+  | IConfigured => negb (no_ca (s_trust s))
+  | ISystem => no_ca (s_trust s) && own_context (s_context s)
+  | IUnknown => false
+  end.
+(* the chain validates: the issuer is one of the anchors *)
+Definition p_chain_ok (s : settings) (p : peer) : bool := anchored s (p_issuer p).
 
 Inductive result :=
 | Sent (verified warned : bool)      (* the handshake and every demanded check passed: the request is written *)
@@ -45,7 +64,7 @@ Definition connect (s : settings) (p : peer) : result :=
     let own := match s_fingerprint s, s_assert_hostname s with FPUnset, AHUnset => false | _, _ => true end in
     let ch := if own then false else ch0 in
     (* the handshake *)
-    if negb (is_none vm) && negb (p_chain_ok p) then Refused
+    if negb (is_none vm) && negb (p_chain_ok s p) then Refused
     else if ch && negb (p_sni_name_ok p) then Refused
     else
       (* after the handshake *)
